@@ -141,10 +141,11 @@ def make_hschema(name):
 def fresh_text(name, oi):
     key = (name, oi)
     if key not in _FRESH:
-        code = ("import sys, json; sys.path.insert(0, %r); sys.path.insert(0, '/repo/src');\n"
+        repo_src = os.path.join(os.environ.get("VF_REPO", "/repo"), "src")
+        code = ("import sys, json; sys.path.insert(0, %r); sys.path.insert(0, " + repr(repo_src) + ");\n"
                 "from harness.c12 import make_hschema, OPTS\n"
                 "print('FRESH' + json.dumps(make_hschema(%r).to_string(**OPTS[%d])))") % (os.environ.get("VERIF_ROOT", "/verif"), name, oi)
-        env = dict(os.environ, PYTHONPATH=os.environ.get("VERIF_ROOT", "/verif") + ":/repo/src", PYTHONHASHSEED="0")
+        env = dict(os.environ, PYTHONPATH=os.environ.get("VERIF_ROOT", "/verif") + ":" + repo_src, PYTHONHASHSEED="0")
         p = subprocess.run(["/venv/bin/python", "-c", code], capture_output=True, text=True, env=env, timeout=120)
         line = [l for l in p.stdout.splitlines() if l.startswith("FRESH")]
         if not line:
